@@ -2,6 +2,7 @@ package main
 
 import (
 	"fmt"
+	"go/token"
 	"regexp"
 	"sort"
 	"strings"
@@ -396,4 +397,40 @@ func hasStr(ss []string, re string) bool {
 		}
 	}
 	return false
+}
+
+// phiLeaves returns the non-phi values that may flow into v through phi nodes
+// (and spilled locals with known reaching stores).
+func (e *Engine) phiLeaves(v ssa.Value) []ssa.Value {
+	seen := map[ssa.Value]bool{}
+	var out []ssa.Value
+	var walk func(v ssa.Value)
+	walk = func(v ssa.Value) {
+		if seen[v] {
+			return
+		}
+		seen[v] = true
+		switch x := v.(type) {
+		case *ssa.Phi:
+			for _, ed := range x.Edges {
+				walk(ed)
+			}
+			return
+		case *ssa.UnOp:
+			if a, ok := x.X.(*ssa.Alloc); ok && x.Op == token.MUL {
+				vals, exact := e.ReachingStores(a, x)
+				if exact && len(vals) > 0 {
+					for _, s := range vals {
+						if s != nil {
+							walk(s)
+						}
+					}
+					return
+				}
+			}
+		}
+		out = append(out, v)
+	}
+	walk(v)
+	return out
 }
